@@ -47,7 +47,7 @@ REQUIRED_PROBES = {"quick": ["observer_before_last_mutation", "raw_value_object_
                              "caseless_duplicate_name", "permutation_moved_something", "amz_in_history",
                              "amz_added_two_or_more", "subtree_from_ical", "zoned_dateutil", "zoned_pytz",
                              "zoned_zoneinfo", "list_valued_parameter", "setter_barrier", "noise_parse", "noise_serialise",
-                             "mixed_zone_list", "constructed_from_mapping", "tzid_parameter_popped", "parsed_value_params_mutated",
+                             "mixed_zone_list", "constructed_from_mapping", "tzid_parameter_popped", "parsed_value_params_mutated", "serialisation_failed_half_way",
                              "params_mutated_in_place", "property_deleted", "value_payload_mutated_in_place"]}
 REQUIRED_PROBES["thorough"] = REQUIRED_PROBES["quick"]
 
@@ -303,6 +303,13 @@ def generate(rng, cfg):
             c = rng.choice(sorted(comps))
             trace.append([0, "observe", {"comp": c, "sorted": rng.random() < 0.7}])
             continue
+        if r < 0.415 and swarm["mutate"] and len(trace) > 3:
+            # a serialisation that fails half-way (a value that cannot be rendered), then the repair: the tree
+            # must serialise afterwards as if the episode had not happened
+            c = rng.choice([k for k in sorted(comps) if comps[k] != "PARSED"])
+            trace.append([0, "poison", {"comp": c, "kind": rng.choice(["int-param", "newline-uri", "newline-param"]),
+                                        "sorted": rng.random() < 0.5}])
+            continue
         if r < 0.46 and swarm["mutate"]:
             # mutation routes other than add(): edit a stored value's parameters in place, delete a property
             parsed_now = [k for k in sorted(comps) if comps[k] == "PARSED"]
@@ -407,7 +414,7 @@ def abstract_sig(run):
 # ---------------------------------------------------------------------------
 # permutations of the insertion history
 
-BARRIERS = ("setattr", "amz", "from_ical", "mutate_params", "del_prop", "mutate_value", "mutate_parsed")
+BARRIERS = ("setattr", "amz", "from_ical", "mutate_params", "del_prop", "mutate_value", "mutate_parsed", "poison")
 
 
 def permute(trace, seed):
@@ -652,6 +659,26 @@ def run_variant(trace, res, with_observers, tag, stepbase=0, checks=True):
                     B.mutated.append(a["param"])
                 if checks:
                     res.probe("params_mutated_in_place")
+            elif op == "poison":
+                comp = B.objs.get(a["comp"])
+                if comp is None:
+                    res.skipped += 1
+                    continue
+                if a["kind"] == "int-param":
+                    comp.add("x-poison", "v", parameters={"X-P": 5})
+                elif a["kind"] == "newline-uri":
+                    comp["X-POISON"] = P.vUri("http://example.com/\nx")
+                else:
+                    comp.add("x-poison", "v", parameters={"X-P": "a\nb"})
+                if with_observers:
+                    # the observer's call fails - that is the point; what it fails with is not C10's business
+                    try:
+                        (B.objs.get(0) or comp).to_ical(sorted=a["sorted"])
+                        comp.to_ical(sorted=a["sorted"])
+                    except Exception:
+                        if checks:
+                            res.probe("serialisation_failed_half_way")
+                comp.pop("X-POISON", None)
             elif op == "mutate_parsed":
                 comp = B.objs.get(a["comp"])
                 if comp is None:
